@@ -11,7 +11,7 @@ import (
 
 // invoke calls the real DoXxx for operation o with callbacks bound to o; runs in the caller's goroutine.
 func (wd *world) invoke(op string, o *opctx) (v interface{}, err error) {
-	ctx := context.Background()
+	ctx := o.ctx
 	key := wd.keys[o.k-1]
 	data := opData{o.k, o.d}
 	load := func(_ context.Context, k interface{}) (interface{}, error) {
@@ -67,12 +67,19 @@ func (wd *world) invoke(op string, o *opctx) (v interface{}, err error) {
 
 // submit logs `sub` (ids are allocated in log order) and returns the caller's body, which logs `ret`.
 func (wd *world) submit(op string, k int, f, g []int) func() interface{} {
+	_, body := wd.submit2(op, k, f, g)
+	return body
+}
+
+func (wd *world) submit2(op string, k int, f, g []int) (*opctx, func() interface{}) {
 	wd.mu.Lock()
 	wd.nid++
 	o := &opctx{id: wd.nid, k: k, d: wd.nid, f: f, g: g}
+	o.ctx, o.cancel = context.WithCancel(context.Background())
+	wd.out[o.id] = o
 	wd.evs = append(wd.evs, tr.E{"ev": "sub", "id": o.id, "op": op, "k": k, "d": o.d})
 	wd.mu.Unlock()
-	return func() interface{} {
+	return o, func() interface{} {
 		defer func() {
 			if p := recover(); p != nil { // a panic of the code under test in the caller's goroutine
 				wd.logf(tr.E{"ev": "panic", "id": o.id, "op": op, "k": k, "msg": fmt.Sprint(p)})
@@ -90,7 +97,15 @@ func (wd *world) submit(op string, k int, f, g []int) func() interface{} {
 		case op != "del":
 			r["v"] = nilVal // (nil, nil) from anything but delete
 		}
-		wd.logf(tr.E{"ev": "ret", "id": o.id, "r": r})
+		wd.mu.Lock()
+		delete(wd.out, o.id)
+		wd.evs = append(wd.evs, tr.E{"ev": "ret", "id": o.id, "r": r})
+		fol := o.follow
+		wd.mu.Unlock()
+		if fol != nil {
+			// the caller whose context ended goes on with its next call at once, in the same goroutine
+			wd.submit(fol.Op, fol.K, fol.F, fol.G)()
+		}
 		return 0
 	}
 }
@@ -117,7 +132,7 @@ func (wd *world) observe(w *tr.W) {
 	for k := 1; k <= wd.cfg.NK; k++ {
 		cache[k-1] = wd.peekAll(k)
 	}
-	w.Emit(tr.E{"ev": "step", "cache": cache, "store": st})
+	w.Emit(tr.E{"ev": "step", "cache": cache, "store": st, "gated": wd.waiting()})
 }
 
 func (wd *world) settle(w *tr.W) {
@@ -205,13 +220,31 @@ func runSteps(w *tr.W, cfg config, plan []step) {
 	cfg.Serial = true
 	wd := newWorld(cfg)
 	wd.emitReset(w)
-	for _, s := range plan {
+	skip := -1
+	for i, s := range plan {
+		if i == skip {
+			continue // already issued as the follow-up of a cancelled call
+		}
 		switch s.Op {
 		case "get", "add", "upd", "del", "uoa", "utl", "utr":
 			if s.K < 1 || s.K > cfg.NK {
 				continue
 			}
 			wd.issue(wd.submit(s.Op, s.K, s.F, s.G))
+			wd.settle(w)
+		case "cancel":
+			// the context of an outstanding call ends; half of the time the caller's next call (the next
+			// plan step, if it is a call) follows in the same goroutine right after the return
+			var fol *step
+			if i+1 < len(plan) && isCall(plan[i+1].Op) && plan[i+1].K >= 1 && plan[i+1].K <= cfg.NK && (s.ID+i)%2 == 0 {
+				fol = &plan[i+1]
+			}
+			if !wd.cancelOp(s.ID, fol) {
+				continue
+			}
+			if fol != nil {
+				skip = i + 1
+			}
 			wd.settle(w)
 		case "rel":
 			// the plan names the operation it expects at the gate; if that one is not there (the real
@@ -227,4 +260,34 @@ func runSteps(w *tr.W, cfg config, plan []step) {
 		}
 	}
 	wd.finish(w)
+}
+
+func isCall(op string) bool {
+	switch op {
+	case "get", "add", "upd", "del", "uoa", "utl", "utr":
+		return true
+	}
+	return false
+}
+
+// cancelOp ends the context of operation id if its caller has not returned (id 0: the oldest outstanding).
+func (wd *world) cancelOp(id int, fol *step) bool {
+	wd.mu.Lock()
+	o := wd.out[id]
+	if o == nil {
+		for i, x := range wd.out {
+			if !x.cancelled && (o == nil || i < o.id) {
+				o = x
+			}
+		}
+	}
+	if o == nil || o.cancelled {
+		wd.mu.Unlock()
+		return false
+	}
+	o.cancelled = true
+	o.follow = fol
+	wd.mu.Unlock()
+	o.cancel()
+	return true
 }
